@@ -1,5 +1,6 @@
 """C09 - restrictions on student formulas cannot be bypassed to obtain credit."""
 import itertools
+import collections
 
 from symx import Harness, pname, sand, sor, simplies, siff, snot, near_eq, is_sym
 from symx.stubs import make_sym_sampler
@@ -242,6 +243,34 @@ def h_siblings_many(E, n, k):
     return 'ok'
 
 
+def h_removed_defaults(E, cls):
+    """default constants the author removed (user_constants={name: None}) are undefined for the student - all of them, in whatever order they were
+    listed and whatever other (non-default) names were listed with them"""
+    import mitxgraders as m
+    orders = [['I', 'i', 'j'], ['i', 'I', 'j'], ['i', 'j', 'I'], ['zz', 'pi', 'qq', 'e'], ['pi', 'e'], ['j', 'notdefault', 'i', 'pi']]
+    names = E.choice('removed', orders)
+    SX = make_sym_sampler(E, 'x', 1, 2)
+    consts = collections.OrderedDict((n, None) for n in names)
+    if cls == 'formula':
+        g = m.FormulaGrader(answers='2*x', variables=['x'], sample_from={'x': SX()}, samples=1, user_constants=consts)
+        honest = '2*x'
+    elif cls == 'matrix':
+        g = m.MatrixGrader(answers='2*x', variables=['x'], sample_from={'x': SX()}, samples=1, user_constants=consts)
+        honest = '2*x'
+    else:
+        g = m.NumericalGrader(answers='5', user_constants=consts)
+        honest = '5'
+    res = _run(E, g, honest)
+    E.check('honest-answer-graded', res[0] == 'ret' and res[1]['ok'] is True)
+    for n in names:
+        if n in ('i', 'j', 'pi', 'e'):
+            for form in ('%s + %s - %s', '%s*%s^0', '%s + sin(%s*0)'):
+                cheat = form % ((honest,) + (n,) * (form.count('%s') - 1))
+                res = _run(E, g, cheat)
+                E.check('restricted-construct-refused-never-credited', res[0] == 'refused')
+    return 'ok'
+
+
 def h_suffix_isolation(E):
     """metric suffixes are an option of ONE grader: graders built before or after it, without the option, still refuse `2k`, `0M` ... as undefined
     however the suffix is hidden (cancelling term, exponent zero, function argument)"""
@@ -317,6 +346,8 @@ def harnesses(tier):
         add(h_sum, 'sum', dict(where=where), 'symbolic samples; restricted construct in that field')
     for cls in ('formula', 'matrix', 'sum'):
         add(h_instructor_kinds, 'instructor_kinds', dict(cls=cls), 'instructor-only plain / dependent / numbered-instance / constant names x 3 cancelling forms')
+    for cls in ('formula', 'matrix', 'numerical'):
+        add(h_removed_defaults, 'removed_defaults', dict(cls=cls), '6 orders of removed names x 3 cancelling forms')
     add(h_suffix_isolation, 'suffix_isolation', {}, 'a metric-suffix grader built before / after / both x 4 grader classes x 3-4 hidden suffix uses')
     add(h_siblings, 'siblings', {}, 'symbolic samples')
     for n, k in ((3, 1), (11, 10), (12, 3), (12, 11)):
